@@ -310,7 +310,11 @@ Step ==
             LET r0 == Consume(Advance(m), viol, l, FALSE)
                 mm == r0.m
                 i == FirstNew(mm.q)
-                vdead == IF mm.dead # "" THEN {V(DeadTag(mm.dead), l, "shim callback " \o e.name \o " started although: " \o mm.dead)} ELSE {}
+                vdead == IF mm.dead # "" THEN {V(DeadTag(mm.dead), l, "shim callback " \o e.name \o " started although: " \o mm.dead)}
+                                                \cup (IF e.name = "auth" /\ mm.dead = "client requested TLS but none is configured"
+                                                      THEN {V("C11", l, "after_authentication was called for a connection that had to be refused, without the client's user name")}
+                                                      ELSE {})
+                         ELSE {}
             IN IF mm.lost \/ mm.free THEN m' = mm /\ viol' = r0.v \cup vdead
                ELSE IF i = 0 THEN
                  /\ m' = [mm EXCEPT !.lost = TRUE]
